@@ -26,8 +26,8 @@ RULE = ('numeric: every identity x component-magnitude bands (each component log
         'non-trivial = all operands have non-zero vector part')
 ASSUMPTIONS = ["symbolic discharge trusts SymPy's expand(); 'relative' means relative to the product of the operand norms",
                'vvmul: unit quaternions with scalar parts >= 0.1 whose product also has scalar part >= 0 (statement: non-negative scalar parts)']
-MIN_EVALS = {'numeric': {'quick': 15000, 'thorough': 250000}, 'symbolic': {'quick': 20, 'thorough': 20},
-             'explog': {'quick': 1500, 'thorough': 20000}, 'dualnorm': {'quick': 500, 'thorough': 8000}}
+MIN_EVALS = {'numeric': {'quick': 10000, 'thorough': 250000}, 'symbolic': {'quick': 20, 'thorough': 20},
+             'explog': {'quick': 1500, 'thorough': 20000}, 'dualnorm': {'quick': 350, 'thorough': 8000}}
 
 
 def S():
